@@ -399,7 +399,7 @@ func runC04(c *fw.Ctx) {
 			respLists = append(respLists, []int{i, j})
 		}
 	}
-	codes := []string{"200", "404"}
+	codeSets := [][]string{{"200", "404"}, {"200", "200"}} // two responses may carry the same code
 	placements := []string{"top", "url-implicit-first", "url-implicit-second", "url-paren-first", "url-paren-second", "after-tagged-url"}
 	for _, style := range styles {
 		for _, pl := range placements {
@@ -408,160 +408,165 @@ func runC04(c *fw.Ctx) {
 					for qu, qy := range queries {
 						for _, ann := range []bool{false, true} {
 							for _, desc := range []bool{false, true} {
-							for tagMode := 0; tagMode <= 3; tagMode++ {
-								if c.Expired() {
-									return
-								}
-								// tagMode: 0 no Tags, 1 the method's own Tags, 2 Tags of the enclosing URL, 3 both
-								isURL := strings.HasPrefix(pl, "url-")
-								if tagMode >= 2 && !isURL {
-									continue
-								}
-								if tagMode != 0 && (qu != 0 || ann || desc || qi > 1 || len(rl) > 1) {
-									continue // deviation bound: Tags vary against an otherwise default method
-								}
-								// deviation bound on the "small" attributes: at most two of {query, annotation, description} depart from default together with a non-default request
-								dev := 0
-								if qu != 0 {
-									dev++
-								}
-								if ann {
-									dev++
-								}
-								if desc {
-									dev++
-								}
-								if qi != 0 && len(rl) == 2 && dev > 1 {
-									continue
-								}
-								e := exp{}
-								m := doc.N("POST")
-								if ann {
-									m.Ann = "does things"
-								}
-								if desc {
-									m.Kids = append(m.Kids, doc.N("Description").WithBody("Long text\n  indented more"))
-								}
-								if qy.build != nil {
-									m.Kids = append(m.Kids, qy.build())
-								}
-								if q.build != nil {
-									m.Kids = append(m.Kids, q.build())
-								}
-								for k, ri := range rl {
-									m.Kids = append(m.Kids, rf[ri].build(codes[k]))
-								}
-								if tagMode == 1 || tagMode == 3 {
-									m.Kids = append(m.Kids, doc.N("Tags", "@own"))
-								}
-								path := "/focus"
-								id := "http POST " + path
-								nodes := []*doc.Node{doc.Jsight()}
-								nodes = append(nodes, fillerTypes(e)...)
-								var ids []string
-								other := doc.N("GET").WithKids(doc.N("204", "empty"))
-								switch pl {
-								case "after-tagged-url":
-									// an implicit URL block with URL-level Tags, directly followed by the path-bearing focus
-									nodes = append(nodes, doc.N("TAG", "@grp"), doc.N("URL", "/tagged").WithKids(doc.N("Tags", "@grp"), doc.N("GET").WithKids(doc.N("204", "empty"))))
-									m.Params = []string{path}
-									nodes = append(nodes, m)
-									ids = []string{"http GET /tagged", id}
-									e["$.interactions.http GET /tagged.tags[0]"] = "@grp"
-								case "top":
-									m.Params = []string{path}
-									m.Paren = len(m.Kids) > 0
-									nodes = append(nodes, m)
-									ids = []string{id}
-								default:
-									u := doc.N("URL", path)
-									u.Paren = strings.Contains(pl, "paren")
-									if tagMode >= 2 {
-										u.Kids = append(u.Kids, doc.N("Tags", "@ugrp"))
-									}
-									m.Paren = len(m.Kids) > 0 // keep the focus self-delimiting inside the block
-									if strings.HasSuffix(pl, "first") {
-										u.Kids = append(u.Kids, m, other)
-										ids = []string{id, "http GET " + path}
-									} else {
-										u.Kids = append(u.Kids, other, m)
-										ids = []string{"http GET " + path, id}
-									}
-									nodes = append(nodes, u)
-								}
-								nodes = append(nodes, doc.N("TYPE", "@after", "any"))
-								e[keysPath("interactions")] = strings.Join(ids, "|")
-								e[keysPath("userTypes")] = "@t|@u|@after"
-								e["$.info"] = absent
-								e["$.servers"] = absent
-								e["$.userEnums"] = absent
-								e["$.jsight"] = "0.3"
-								p := "$.interactions." + id
-								e[p+".id"] = id
-								e[p+".protocol"] = "http"
-								e[p+".httpMethod"] = "POST"
-								e[p+".path"] = path
-								e[p+".pathVariables"] = absent
-								e[p+".tags.#len"] = "1"
-								switch tagMode {
-								case 0:
-									e[p+".tags[0]"] = "@focus"
-								case 1, 3:
-									e[p+".tags[0]"] = "@own" // the method's own Tags win
-								case 2:
-									e[p+".tags[0]"] = "@ugrp"
-								}
-								if tagMode != 0 {
-									nodes = append(nodes, doc.N("TAG", "@own").WithAnn("Own"), doc.N("TAG", "@ugrp"))
-									e["$.tags.@own.title"] = "Own"
-									e["$.tags.@ugrp.title"] = "@ugrp"
-									if isURL {
-										// the sibling method has no Tags of its own
-										sib := "@focus"
-										if tagMode >= 2 {
-											sib = "@ugrp"
+								for tagMode := 0; tagMode <= 3; tagMode++ {
+									for csi, codes := range codeSets {
+										if csi > 0 && (len(rl) != 2 || tagMode != 0 || qu != 0 || ann || desc || qi != 0) {
+											continue // the same code twice varies against an otherwise default method
 										}
-										e["$.interactions.http GET "+path+".tags.#len"] = "1"
-										e["$.interactions.http GET "+path+".tags[0]"] = sib
+										if c.Expired() {
+											return
+										}
+										// tagMode: 0 no Tags, 1 the method's own Tags, 2 Tags of the enclosing URL, 3 both
+										isURL := strings.HasPrefix(pl, "url-")
+										if tagMode >= 2 && !isURL {
+											continue
+										}
+										if tagMode != 0 && (qu != 0 || ann || desc || qi > 1 || len(rl) > 1) {
+											continue // deviation bound: Tags vary against an otherwise default method
+										}
+										// deviation bound on the "small" attributes: at most two of {query, annotation, description} depart from default together with a non-default request
+										dev := 0
+										if qu != 0 {
+											dev++
+										}
+										if ann {
+											dev++
+										}
+										if desc {
+											dev++
+										}
+										if qi != 0 && len(rl) == 2 && dev > 1 {
+											continue
+										}
+										e := exp{}
+										m := doc.N("POST")
+										if ann {
+											m.Ann = "does things"
+										}
+										if desc {
+											m.Kids = append(m.Kids, doc.N("Description").WithBody("Long text\n  indented more"))
+										}
+										if qy.build != nil {
+											m.Kids = append(m.Kids, qy.build())
+										}
+										if q.build != nil {
+											m.Kids = append(m.Kids, q.build())
+										}
+										for k, ri := range rl {
+											m.Kids = append(m.Kids, rf[ri].build(codes[k]))
+										}
+										if tagMode == 1 || tagMode == 3 {
+											m.Kids = append(m.Kids, doc.N("Tags", "@own"))
+										}
+										path := "/focus"
+										id := "http POST " + path
+										nodes := []*doc.Node{doc.Jsight()}
+										nodes = append(nodes, fillerTypes(e)...)
+										var ids []string
+										other := doc.N("GET").WithKids(doc.N("204", "empty"))
+										switch pl {
+										case "after-tagged-url":
+											// an implicit URL block with URL-level Tags, directly followed by the path-bearing focus
+											nodes = append(nodes, doc.N("TAG", "@grp"), doc.N("URL", "/tagged").WithKids(doc.N("Tags", "@grp"), doc.N("GET").WithKids(doc.N("204", "empty"))))
+											m.Params = []string{path}
+											nodes = append(nodes, m)
+											ids = []string{"http GET /tagged", id}
+											e["$.interactions.http GET /tagged.tags[0]"] = "@grp"
+										case "top":
+											m.Params = []string{path}
+											m.Paren = len(m.Kids) > 0
+											nodes = append(nodes, m)
+											ids = []string{id}
+										default:
+											u := doc.N("URL", path)
+											u.Paren = strings.Contains(pl, "paren")
+											if tagMode >= 2 {
+												u.Kids = append(u.Kids, doc.N("Tags", "@ugrp"))
+											}
+											m.Paren = len(m.Kids) > 0 // keep the focus self-delimiting inside the block
+											if strings.HasSuffix(pl, "first") {
+												u.Kids = append(u.Kids, m, other)
+												ids = []string{id, "http GET " + path}
+											} else {
+												u.Kids = append(u.Kids, other, m)
+												ids = []string{"http GET " + path, id}
+											}
+											nodes = append(nodes, u)
+										}
+										nodes = append(nodes, doc.N("TYPE", "@after", "any"))
+										e[keysPath("interactions")] = strings.Join(ids, "|")
+										e[keysPath("userTypes")] = "@t|@u|@after"
+										e["$.info"] = absent
+										e["$.servers"] = absent
+										e["$.userEnums"] = absent
+										e["$.jsight"] = "0.3"
+										p := "$.interactions." + id
+										e[p+".id"] = id
+										e[p+".protocol"] = "http"
+										e[p+".httpMethod"] = "POST"
+										e[p+".path"] = path
+										e[p+".pathVariables"] = absent
+										e[p+".tags.#len"] = "1"
+										switch tagMode {
+										case 0:
+											e[p+".tags[0]"] = "@focus"
+										case 1, 3:
+											e[p+".tags[0]"] = "@own" // the method's own Tags win
+										case 2:
+											e[p+".tags[0]"] = "@ugrp"
+										}
+										if tagMode != 0 {
+											nodes = append(nodes, doc.N("TAG", "@own").WithAnn("Own"), doc.N("TAG", "@ugrp"))
+											e["$.tags.@own.title"] = "Own"
+											e["$.tags.@ugrp.title"] = "@ugrp"
+											if isURL {
+												// the sibling method has no Tags of its own
+												sib := "@focus"
+												if tagMode >= 2 {
+													sib = "@ugrp"
+												}
+												e["$.interactions.http GET "+path+".tags.#len"] = "1"
+												e["$.interactions.http GET "+path+".tags[0]"] = sib
+											}
+										}
+										if ann {
+											e[p+".annotation"] = "does things"
+										} else {
+											e[p+".annotation"] = absent
+										}
+										if desc {
+											e[p+".description"] = "Long text\n  indented more"
+										} else {
+											e[p+".description"] = absent
+										}
+										qy.exp(e, p+".query")
+										q.exp(e, p+".request")
+										if len(rl) == 0 {
+											e[p+".responses"] = absent
+										} else {
+											e[p+".responses.#len"] = fmt.Sprint(len(rl))
+											for k, ri := range rl {
+												rp := fmt.Sprintf("%s.responses[%d]", p, k)
+												e[rp+".code"] = codes[k]
+												rf[ri].exp(e, rp)
+											}
+										}
+										if len(ids) == 2 && pl != "after-tagged-url" {
+											op := "$.interactions.http GET " + path
+											e[op+".httpMethod"] = "GET"
+											e[op+".responses.#len"] = "1"
+											e[op+".responses[0].code"] = "204"
+											e[op+".request"] = absent
+											e[op+".query"] = absent
+										}
+										names := []string{}
+										for _, ri := range rl {
+											names = append(names, rf[ri].name)
+										}
+										label := fmt.Sprintf("http %s req=%s resp=%v codes=%v query=%s ann=%v desc=%v tags=%d style=%s", pl, q.name, names, codes, qy.name, ann, desc, tagMode, style)
+										judge(label, nodes, e, style)
 									}
 								}
-								if ann {
-									e[p+".annotation"] = "does things"
-								} else {
-									e[p+".annotation"] = absent
-								}
-								if desc {
-									e[p+".description"] = "Long text\n  indented more"
-								} else {
-									e[p+".description"] = absent
-								}
-								qy.exp(e, p+".query")
-								q.exp(e, p+".request")
-								if len(rl) == 0 {
-									e[p+".responses"] = absent
-								} else {
-									e[p+".responses.#len"] = fmt.Sprint(len(rl))
-									for k, ri := range rl {
-										rp := fmt.Sprintf("%s.responses[%d]", p, k)
-										e[rp+".code"] = codes[k]
-										rf[ri].exp(e, rp)
-									}
-								}
-								if len(ids) == 2 && pl != "after-tagged-url" {
-									op := "$.interactions.http GET " + path
-									e[op+".httpMethod"] = "GET"
-									e[op+".responses.#len"] = "1"
-									e[op+".responses[0].code"] = "204"
-									e[op+".request"] = absent
-									e[op+".query"] = absent
-								}
-								names := []string{}
-								for _, ri := range rl {
-									names = append(names, rf[ri].name)
-								}
-								label := fmt.Sprintf("http %s req=%s resp=%v query=%s ann=%v desc=%v tags=%d style=%s", pl, q.name, names, qy.name, ann, desc, tagMode, style)
-								judge(label, nodes, e, style)
-							}
 							}
 						}
 					}
